@@ -12,7 +12,9 @@ import (
 	"math/big"
 	"os"
 	"runtime"
+	"sort"
 	"sync"
+	"time"
 
 	"verif/harness/lib"
 )
@@ -207,9 +209,13 @@ type trieOutcome struct {
 	spec   []string
 	lines  []string
 	obsIdx []int
+	llines []string
+	lobs   []int
 }
 
 func checkTrieCases(f lib.Flags, res *lib.Result, drv *lib.Driver, cases []*TrieCase, family string) {
+	t0 := time.Now()
+	defer func() { res.HitN("ms:"+family, int(time.Since(t0).Milliseconds())) }()
 	outs := make([]*trieOutcome, len(cases))
 	parallel(cases, func(i int, c *TrieCase) {
 		o := &trieOutcome{c: c}
@@ -228,6 +234,23 @@ func checkTrieCases(f lib.Flags, res *lib.Result, drv *lib.Driver, cases []*Trie
 	for i, o := range outs {
 		o.lines, o.obsIdx = modelLines(o.c, i%1000)
 		all = append(all, o.lines...)
+		o.llines, o.lobs = legacyModelLines(o.c, i%1000)
+		if o.c.Height <= 8 {
+			// tie between the Lean definition `Spec.root` and the Go recomputation used as oracle
+			_, fin := specTrace(o.c)
+			line := fmt.Sprintf("spec %d %s", o.c.Height, o.c.Hash)
+			ks := make([]string, 0, len(fin))
+			for k := range fin {
+				ks = append(ks, k)
+			}
+			sort.Strings(ks)
+			for _, k := range ks {
+				v := fin[k]
+				line += " " + k + ":" + feltHex(&v)
+			}
+			o.llines = append(o.llines, line)
+		}
+		all = append(all, o.llines...)
 	}
 	var answers []string
 	if drv != nil {
@@ -242,7 +265,7 @@ func checkTrieCases(f lib.Flags, res *lib.Result, drv *lib.Driver, cases []*Trie
 	off := 0
 	for _, o := range outs {
 		evalTrieOutcome(res, o, answers, off, family)
-		off += len(o.lines)
+		off += len(o.lines) + len(o.llines)
 	}
 }
 
@@ -266,37 +289,49 @@ func evalTrieOutcome(res *lib.Result, o *trieOutcome, answers []string, off int,
 
 	// property oracle on the real code
 	if o.t2.Err != "" {
-		res.Violate(lib.Violation{Sig: "trie2-error-on-valid-history", What: "trie2 returned an error / panicked on a valid op sequence: " + o.t2.Err,
-			Replay: replayBody{Kind: "trie", Trie: shrinkTrie(c, func(c *TrieCase) bool { return runTrie2(c).Err != "" })}})
+		violateOnce(res, "trie2-error-on-valid-history", func() lib.Violation { return lib.Violation{Sig: "trie2-error-on-valid-history", What: "trie2 returned an error / panicked on a valid op sequence: " + o.t2.Err,
+			Replay: replayBody{Kind: "trie", Trie: shrinkTrie(c, func(c *TrieCase) bool { return runTrie2(c).Err != "" })}} })
 	} else if d := firstDiff(o.t2.Roots, o.spec); d >= 0 {
-		res.Violate(lib.Violation{Sig: "trie2-root-differs-from-commitment-of-map",
+		violateOnce(res, "trie2-root-differs-from-commitment-of-map", func() lib.Violation { return lib.Violation{Sig: "trie2-root-differs-from-commitment-of-map",
 			What: fmt.Sprintf("trie2 root at observation %d is %s, the Starknet commitment of the key/value map is %s", d, at(o.t2.Roots, d), at(o.spec, d)),
 			Replay: replayBody{Kind: "trie", Trie: shrinkTrie(c, func(c *TrieCase) bool {
 				s, _ := specTrace(c)
 				t := runTrie2(c)
 				return t.Err == "" && firstDiff(t.Roots, s) >= 0
-			})}})
+			})}} })
+	}
+	if o.t2.Read != "" {
+		violateOnce(res, "trie2-read-after-reopen-differs-from-map", func() lib.Violation {
+			return lib.Violation{Sig: "trie2-read-after-reopen-differs-from-map", What: "core/trie2 after Commit + reopen: " + o.t2.Read,
+				Replay: replayBody{Kind: "trie", Trie: shrinkTrie(c, func(c *TrieCase) bool { return runTrie2(c).Read != "" })}}
+		})
+	}
+	if o.lg.Read != "" {
+		violateOnce(res, "legacy-trie-read-after-reopen-differs-from-map", func() lib.Violation {
+			return lib.Violation{Sig: "legacy-trie-read-after-reopen-differs-from-map", What: "core/trie after Commit + reopen: " + o.lg.Read,
+				Replay: replayBody{Kind: "trie", Trie: shrinkTrie(c, func(c *TrieCase) bool { return runLegacy(c).Read != "" })}}
+		})
 	}
 	if o.lg.Err != "" {
-		res.Violate(lib.Violation{Sig: "legacy-trie-error-on-valid-history", What: "core/trie returned an error / panicked on a valid op sequence: " + o.lg.Err,
-			Replay: replayBody{Kind: "trie", Trie: shrinkTrie(c, func(c *TrieCase) bool { return runLegacy(c).Err != "" })}})
+		violateOnce(res, "legacy-trie-error-on-valid-history", func() lib.Violation { return lib.Violation{Sig: "legacy-trie-error-on-valid-history", What: "core/trie returned an error / panicked on a valid op sequence: " + o.lg.Err,
+			Replay: replayBody{Kind: "trie", Trie: shrinkTrie(c, func(c *TrieCase) bool { return runLegacy(c).Err != "" })}} })
 	} else if d := firstDiff(o.lg.Roots, o.spec); d >= 0 {
-		res.Violate(lib.Violation{Sig: "legacy-trie-root-differs-from-commitment-of-map",
+		violateOnce(res, "legacy-trie-root-differs-from-commitment-of-map", func() lib.Violation { return lib.Violation{Sig: "legacy-trie-root-differs-from-commitment-of-map",
 			What: fmt.Sprintf("core/trie root at observation %d is %s, the Starknet commitment of the key/value map is %s", d, at(o.lg.Roots, d), at(o.spec, d)),
 			Replay: replayBody{Kind: "trie", Trie: shrinkTrie(c, func(c *TrieCase) bool {
 				s, _ := specTrace(c)
 				t := runLegacy(c)
 				return t.Err == "" && firstDiff(t.Roots, s) >= 0
-			})}})
+			})}} })
 	}
 	if o.t2.Err == "" && o.lg.Err == "" {
 		if d := firstDiff(o.t2.Roots, o.lg.Roots); d >= 0 {
-			res.Violate(lib.Violation{Sig: "trie-backends-disagree",
+			violateOnce(res, "trie-backends-disagree", func() lib.Violation { return lib.Violation{Sig: "trie-backends-disagree",
 				What: fmt.Sprintf("observation %d: trie2 root %s, core/trie root %s", d, at(o.t2.Roots, d), at(o.lg.Roots, d)),
 				Replay: replayBody{Kind: "trie", Trie: shrinkTrie(c, func(c *TrieCase) bool {
 					a, b := runTrie2(c), runLegacy(c)
 					return a.Err == "" && b.Err == "" && firstDiff(a.Roots, b.Roots) >= 0
-				})}})
+				})}} })
 		}
 	}
 
@@ -315,6 +350,33 @@ func evalTrieOutcome(res *lib.Result, o *trieOutcome, answers []string, off int,
 		}
 		if got := feltHex(&v); got != impl {
 			res.Mismatch(lib.Mismatch{Sig: "trie2-root", Input: c, Model: got + " = " + clip(ans), Impl: impl})
+			return
+		}
+	}
+	// same for the legacy trie model
+	loff := off + len(o.lines)
+	if c.Height <= 8 {
+		ans := answers[loff+len(o.llines)-1]
+		res.Compared(1)
+		v, err := evalTerm(ans)
+		if want := at(o.spec, len(o.spec)-1); err != nil || feltHex(&v) != want {
+			res.Mismatch(lib.Mismatch{Sig: "lean-spec-root-vs-go-recomputation", Input: c, Model: clip(ans), Impl: want})
+		}
+	}
+	for j, idx := range o.lobs {
+		ans := answers[loff+idx]
+		res.Compared(1)
+		impl := at(o.lg.Roots, j)
+		if o.lg.Err != "" {
+			impl = "err"
+		}
+		v, err := evalTerm(ans)
+		if err != nil {
+			res.Mismatch(lib.Mismatch{Sig: "legacy-trie-model-answer", Input: c, Model: clip(ans), Impl: impl})
+			return
+		}
+		if got := feltHex(&v); got != impl {
+			res.Mismatch(lib.Mismatch{Sig: "legacy-trie-root", Input: c, Model: got + " = " + clip(ans), Impl: impl})
 			return
 		}
 	}
@@ -408,14 +470,33 @@ func main() {
 	checkTrieCases(f, res, drv, cs, "random-251")
 	// 4. large batches (parallel hashing / parallel collector paths: > 100 pending updates)
 	cs = nil
-	for i := 0; i < f.Scale(6, 60); i++ {
-		cs = append(cs, genRandomCase(r.Fork(uint64(2_000_000+i)), 251, r.Range(120, 260), r.Range(150, 400), i%2 == 0))
+	for i := 0; i < f.Scale(8, 60); i++ {
+		rr := r.Fork(uint64(2_000_000 + i))
+		c := genRandomCase(rr, 251, rr.Range(120, 260), rr.Range(150, 400), false)
+		if i%4 != 3 {
+			// one big batch, Commit + reopen (parallel hasher / collector), then a tail touching old keys
+			tail := genRandomCase(rr, 251, 4, rr.Range(3, 12), true)
+			c.Ops = append(c.Ops, TOp{Op: "commit"})
+			for j, op := range tail.Ops {
+				if op.Op == "put" {
+					op.K = c.Ops[(j*37)%len(c.Ops)].K
+					if op.K == "" {
+						op.K = c.Ops[0].K
+					}
+				}
+				c.Ops = append(c.Ops, op)
+			}
+			c.Ops = append(c.Ops, TOp{Op: "commit"})
+		}
+		cs = append(cs, c)
 	}
 	checkTrieCases(f, res, drv, cs, "large-batch")
 
 	checkTempTries(f, res, r)
 
 	// 5. state-diff sequences through core/state and core/deprecatedstate
+	legacyPurgeVariant = legacyPurges()
+	res.Note("deprecatedstate purges emptied system contracts in Update: %v (selects the Lean model variant)", legacyPurgeVariant)
 	checkStateCases(f, res, drv, directedStateCases(), "state-directed")
 	var scs []*StateCase
 	for i := 0; i < f.Scale(300, 6000); i++ {
@@ -423,6 +504,11 @@ func main() {
 		scs = append(scs, genStateCase(rr, rr.Range(1, 6)))
 	}
 	checkStateCases(f, res, drv, scs, "state-random")
+	scs = nil
+	for i := 0; i < f.Scale(3, 30); i++ {
+		scs = append(scs, genLargeStateCase(r.Fork(uint64(4_000_000+i))))
+	}
+	checkStateCases(f, res, drv, scs, "state-large-diff")
 	lib.Finish(f, res)
 }
 
@@ -447,6 +533,7 @@ func runReplay(f lib.Flags, res *lib.Result, drv *lib.Driver) {
 			res.Note("replay: %v", err)
 			return
 		}
+		legacyPurgeVariant = legacyPurges()
 		checkStateCases(f, res, drv, []*StateCase{&sc}, "replay")
 	case "temptrie":
 		var n int
